@@ -103,6 +103,56 @@ func resolveOnce(v ssa.Value) (ssa.Value, bool) {
 				return mcs[0].Bindings[i], true
 			}
 		}
+	case *ssa.UnOp:
+		// a load of a cell that is written exactly once (a captured or address-taken
+		// parameter / local that is never reassigned) is the value written
+		if x.Op != token.MUL {
+			return nil, false
+		}
+		var cell ssa.Value = x.X
+		if fv, ok := cell.(*ssa.FreeVar); ok {
+			r, ok := resolveOnce(fv)
+			if !ok {
+				return nil, false
+			}
+			cell = r
+		}
+		al, ok := cell.(*ssa.Alloc)
+		if !ok {
+			return nil, false
+		}
+		var val ssa.Value
+		n := 0
+		escapes := false
+		var visit func(v ssa.Value)
+		visit = func(v ssa.Value) {
+			for _, r := range Refs(v) {
+				switch y := r.(type) {
+				case *ssa.Store:
+					if y.Addr == v {
+						n++
+						val = y.Val
+					} else {
+						escapes = true
+					}
+				case *ssa.MakeClosure:
+					fn := y.Fn.(*ssa.Function)
+					for i, b := range y.Bindings {
+						if b == v && i < len(fn.FreeVars) {
+							visit(fn.FreeVars[i])
+						}
+					}
+				case *ssa.UnOp, *ssa.DebugRef:
+				default:
+					escapes = true
+				}
+			}
+		}
+		visit(al)
+		if n == 1 && !escapes && val != nil {
+			return val, true
+		}
+		return nil, false
 	case *ssa.Call:
 		cal := x.Call.StaticCallee()
 		if cal == nil || privateCallSite(cal) != ssa.CallInstruction(x) || cal.Signature.Results().Len() != 1 {
